@@ -5,9 +5,6 @@ cd "$(dirname "$0")/.."
 out=$(mktemp -d /var/tmp/pmscov.XXXXXX)
 props=${*:-"C01 C02 C03 C04 C05 C06 C07 C08 C09 C10 C11 C12 C13 C14 C15 C16 C17 C18 C19 C20"}
 export PYTHONHASHSEED=0 VERIF_NPROC=1 VERIF_EVIDENCE_DIR=$out COVERAGE_FILE=$out/.coverage
-for p in $props; do
-  /venv/bin/python -m coverage run -p --source=/repo/src/pyModeS ./check $p > $out/$p.log 2>&1
-  echo "$p exit=$?"
-done
-cd $out && /venv/bin/python -m coverage combine -q && /venv/bin/python -m coverage report -m --skip-covered 2>&1 | tail -40
+echo $props | tr ' ' '\n' | xargs -P 8 -I{} sh -c "/venv/bin/python -m coverage run -p --source=/repo/src/pyModeS ./check {} > $out/{}.log 2>&1; echo {} exit=\$?"
+cd $out && /venv/bin/python -m coverage combine -q && /venv/bin/python -m coverage report -i -m --skip-covered 2>&1 | tail -45
 rm -rf $out
